@@ -18,20 +18,25 @@ import (
 
 type sysQPlan struct {
 	sq       sysQuery
-	mode     string // drain | slow | stall | cancelAt | closeAt | cancelPause | closePause | cancelBefore | closeBefore | cancelIter | cancelAfter
+	mode     string // drain | slow | stall | cancelAt | closeAt | cancelPause | closePause | cancelBefore | closeBefore | cancelIter | cancelAfter | cancelLate | inRead | handoff
 	at       int    // global event index for cancelAt / closeAt
 	point    string // pause point for cancelPause / closePause
 	stallAt  int    // rows after which a stalled consumer stops
 	after    string // what ends a stall: resume | cancel | close
 	twoClose bool   // a second goroutine calls Close as well
+	ctxKind  string // the caller's context: std | watch | gated (see q_ctx.go)
 }
 
 type sysQRun struct {
 	idx      int
 	plan     sysQPlan
 	ctx      context.Context
-	cancel   context.CancelFunc
-	r        *bs.Results
+	cancel   func()
+	// propagate lets a gated caller context's cancellation reach the query's internal context;
+	// holdProp: only the end of the scenario does that
+	propagate func()
+	holdProp  bool
+	r         *bs.Results
 	qid      int64
 	consumer *actor
 	closers  []*actor
@@ -42,8 +47,14 @@ type sysQRun struct {
 	nextFalse  bool // Next returned false
 	stickyOK   bool // and false again
 	cancelled  atomic.Bool
+	cancelDone atomic.Bool // the cancel call has returned
 	closeAsked atomic.Bool
+	closeEarly atomic.Bool // a Close call returned while the pipeline had not wound down
 	queryErr   error
+	// read by the consumer around the Next call that returned false
+	cancelBeforeFinal bool // the caller's cancel had returned before that call began
+	closeAtFalse      bool // somebody had been asked to Close when it returned
+	lateCancel        bool // cancelLate: the cancel was issued after the pipeline had finished by itself
 }
 
 type sysScenario struct {
@@ -56,19 +67,27 @@ type sysScenario struct {
 	faults  string
 	iterAt  int
 	mainGid int64
+	propDelayUs int
 }
 
 const sysTimeout = 30 * time.Second
 
+// qHangSeen: a query of this run did not come to an end; the scenarios that exist to provoke that are not repeated
+var qHangSeen bool
+
+// qSaturateSeq rotates how a saturated query is ended, qInReadSeq how a query with a read in flight is
+var qSaturateSeq, qInReadSeq int
+
 func (c *Ctx) genQPlan(i, nq int, evGuess int) sysQPlan {
 	p := sysQPlan{sq: c.genSysQuery()}
-	modes := []string{"drain", "drain", "slow", "cancelAt", "cancelAt", "closeAt", "closeAt", "cancelPause", "closePause", "cancelBefore", "closeBefore", "cancelIter", "cancelAfter", "stall"}
+	modes := []string{"drain", "drain", "slow", "cancelAt", "cancelAt", "closeAt", "closeAt", "cancelPause", "closePause", "cancelBefore", "closeBefore", "cancelIter", "cancelAfter", "stall", "cancelLate"}
 	p.mode = modes[c.intn(len(modes))]
 	p.at = c.intn(evGuess + 1)
 	p.point = []string{"res.next.wait", "res.next.wait", "res.deliver.block", "res.term.waited", "res.close.waited"}[c.intn(5)]
 	p.stallAt = c.intn(40)
 	p.after = []string{"resume", "cancel", "close"}[c.intn(3)]
 	p.twoClose = c.chance(0.3)
+	p.ctxKind = []string{"std", "std", "std", "watch", "gated"}[c.intn(5)]
 	return p
 }
 
@@ -81,6 +100,11 @@ func (p sysQPlan) String() string {
 		s += "@" + p.point
 	case "stall":
 		s += fmt.Sprintf("@%d->%s", p.stallAt, p.after)
+	case "inRead", "handoff":
+		s += "->" + p.after
+	}
+	if p.ctxKind != "" && p.ctxKind != "std" {
+		s += "+ctx:" + p.ctxKind
 	}
 	if p.twoClose {
 		s += "+close2"
@@ -98,11 +122,20 @@ func (sc *sysScenario) doCancel(q *sysQRun, inSink bool) {
 		sc.log.addLocked("caller.cancel.begin", int64(q.idx), 0)
 		q.cancel()
 		sc.log.addLocked("caller.cancel.end", int64(q.idx), 0)
-		return
+	} else {
+		bs.VerifEmit("caller.cancel.begin", int64(q.idx), 0, "")
+		q.cancel()
+		bs.VerifEmit("caller.cancel.end", int64(q.idx), 0, "")
 	}
-	bs.VerifEmit("caller.cancel.begin", int64(q.idx), 0, "")
-	q.cancel()
-	bs.VerifEmit("caller.cancel.end", int64(q.idx), 0, "")
+	q.cancelDone.Store(true)
+	if q.plan.ctxKind == "gated" && !q.holdProp {
+		// the cancellation reaches the query's internal context a little later
+		d := time.Duration(sc.propDelayUs) * time.Microsecond
+		go func() {
+			time.Sleep(d)
+			q.propagate()
+		}()
+	}
 }
 
 func (sc *sysScenario) askClose(q *sysQRun) {
@@ -115,7 +148,23 @@ func (sc *sysScenario) askClose(q *sysQRun) {
 // runSysScenario executes one scenario and returns the Coq term (or "" when it had to be abandoned).
 func runSysScenario(c *Ctx, fixed bool, kind string) (term string, desc map[string]any, key string, nontrivial bool) {
 	maxQC := []int{1, 2, 3, 8}[c.intn(4)]
-	w := buildWorld(c, maxQC)
+	shape := ""
+	switch kind {
+	case "saturate":
+		maxQC, shape = 1+c.intn(2), "manyfiles"
+	case "handoff":
+		maxQC = 1 + c.intn(2)
+	case "starve":
+		// sometimes the stalled query has more candidate files than its pipeline absorbs: its file workers block
+		// in dispatch as well (they must not hold a slot there either)
+		if c.chance(0.35) && !qHangSeen {
+			maxQC, shape = 1+c.intn(2), "manyfiles"
+		}
+	case "bigfilter":
+		maxQC, shape = []int{1, 2, 8}[c.intn(3)], "bigfilter"
+	}
+	dedicated := kind == "saturate" || kind == "handoff" || kind == "bigfilter" || kind == "inread" || kind == "latecancel"
+	w := buildWorld(c, maxQC, shape)
 	lifecycle := ""
 	if kind == "lifecycle" {
 		// queries do not depend on the ingest lifecycle: a never-started engine over the same stores, or the
@@ -133,29 +182,54 @@ func runSysScenario(c *Ctx, fixed bool, kind string) (term string, desc map[stri
 	} else {
 		defer w.stop(c)
 	}
-	sc := &sysScenario{c: c, w: w, iterAt: -1, mainGid: curGoroutineID()}
+	sc := &sysScenario{c: c, w: w, iterAt: -1, mainGid: curGoroutineID(), propDelayUs: c.intn(400)}
 	nq := 1
-	if c.chance(0.45) {
+	if c.chance(0.45) && !dedicated {
 		nq = 2 + c.intn(2)
+	}
+	if kind == "starve" && shape == "manyfiles" {
+		nq = 2
+	}
+	// a MetaStore owes the engine no block order
+	if kind == "random" || kind == "bigfilter" {
+		if c.chance(0.5) {
+			w.meta.mu.Lock()
+			w.meta.order = []string{"reverse", "shuffle"}[c.intn(2)]
+			w.meta.orderSeed = uint64(c.intn(1 << 30))
+			w.meta.mu.Unlock()
+		}
 	}
 	// store faults and schedule perturbation
 	openFail, readFail := map[int64]bool{}, map[int64]bool{}
 	var faultDesc []string
-	if c.chance(0.35) {
+	// what an injected store failure looks like: a plain error, or one that wraps a context error of the
+	// store's own making (a per-request timeout, a transport abort) while the query's context is live
+	faultErr := errInjected
+	switch c.intn(3) {
+	case 1:
+		faultErr = fmt.Errorf("object store request timed out: %w (%w)", context.DeadlineExceeded, errInjected)
+		faultDesc = append(faultDesc, "err=deadline")
+	case 2:
+		faultErr = fmt.Errorf("body read aborted by transport: %w (%w)", context.Canceled, errInjected)
+		faultDesc = append(faultDesc, "err=canceled")
+	}
+	if dedicated {
+		// the dedicated scenarios bring their own disturbance
+	} else if c.chance(0.35) {
 		for i := 0; i < 1+c.intn(2); i++ {
 			n := int64(c.intn(8))
 			openFail[n] = true
 			faultDesc = append(faultDesc, fmt.Sprintf("open#%d", n))
 		}
 	}
-	if c.chance(0.35) {
+	if !dedicated && c.chance(0.35) {
 		for i := 0; i < 1+c.intn(3); i++ {
 			n := int64(c.intn(40))
 			readFail[n] = true
 			faultDesc = append(faultDesc, fmt.Sprintf("read#%d", n))
 		}
 	}
-	if c.chance(0.2) {
+	if !dedicated && c.chance(0.2) {
 		sc.iterAt = c.intn(len(w.files) + 1)
 		faultDesc = append(faultDesc, fmt.Sprintf("iter@%d", sc.iterAt))
 	}
@@ -166,12 +240,12 @@ func runSysScenario(c *Ctx, fixed bool, kind string) (term string, desc map[stri
 		case "OpenFile":
 			if openFail[openCtr.Add(1)-1] {
 				injected.Add(1)
-				return errInjected
+				return faultErr
 			}
 		case "Read":
 			if readFail[readCtr.Add(1)-1] {
 				injected.Add(1)
-				return errInjected
+				return faultErr
 			}
 		}
 		return nil
@@ -191,7 +265,6 @@ func runSysScenario(c *Ctx, fixed bool, kind string) (term string, desc map[stri
 			}
 		}
 	}
-	sc.faults = strings.Join(faultDesc, ",")
 	w.meta.mu.Lock()
 	w.meta.failAt = sc.iterAt
 	w.meta.mu.Unlock()
@@ -203,6 +276,11 @@ func runSysScenario(c *Ctx, fixed bool, kind string) (term string, desc map[stri
 		if kind == "starve" {
 			if i == 0 {
 				p.mode, p.stallAt = "stall", c.intn(5)
+				if shape == "manyfiles" {
+					for p.sq.hasPre || p.sq.name != "field:tag" {
+						p.sq = c.genSysQuery() // bloom conditions (the file workers take slots), every file survives
+					}
+				}
 			} else {
 				p.mode = "drain"
 			}
@@ -214,12 +292,39 @@ func runSysScenario(c *Ctx, fixed bool, kind string) (term string, desc map[stri
 		if kind == "lifecycle" && c.chance(0.6) {
 			p.mode = "drain"
 		}
+		switch kind {
+		case "saturate":
+			// a consumer that takes (next to) nothing, the pipeline backs up to the file stage, then the query is
+			// ended from outside: every blocked send must give way
+			p.mode, p.stallAt = "stall", c.intn(3)
+			p.after = []string{"close", "close", "cancel", "close", "resume", "close"}[qSaturateSeq%6]
+			qSaturateSeq++
+			p.sq = c.genSysQuery()
+			for p.sq.hasPre || strings.HasPrefix(p.sq.name, "token") || strings.HasPrefix(p.sq.name, "fieldtoken") {
+				p.sq = c.genSysQuery() // every file must contribute rows: all / field:tag
+			}
+		case "latecancel":
+			p.mode, p.ctxKind, p.twoClose = "cancelLate", "gated", false
+		case "inread":
+			p.mode = "inRead"
+			p.after = []string{"close", "cancel", "cancelclose"}[qInReadSeq%3]
+			qInReadSeq++
+		case "handoff":
+			p.mode, p.ctxKind = "handoff", "std"
+			p.after = []string{"cancel", "cancel", "close"}[c.intn(3)]
+		case "bigfilter":
+			p.mode = []string{"drain", "drain", "slow", "cancelAt", "closeAt"}[c.intn(5)]
+			for p.sq.hasPre || (!strings.HasPrefix(p.sq.name, "token") && !strings.HasPrefix(p.sq.name, "fieldtoken") && !strings.HasPrefix(p.sq.name, "field:")) {
+				p.sq = c.genSysQuery() // the block filter pass only runs for a query with bloom conditions
+			}
+		}
 		if p.mode == "cancelIter" {
 			if nq > 1 || sc.iterAt >= 0 {
 				p.mode = "cancelAt"
 			}
 		}
 		q := &sysQRun{idx: i, plan: p, closeSig: make(chan struct{}), resume: make(chan struct{})}
+		q.holdProp = p.mode == "cancelLate"
 		q.consumer = newActor()
 		q.closers = []*actor{newActor()}
 		if p.twoClose {
@@ -232,6 +337,73 @@ func runSysScenario(c *Ctx, fixed bool, kind string) (term string, desc map[stri
 	if kind != "random" {
 		sc.plan = kind + lifecycle + ": " + sc.plan
 	}
+
+	// ---- the store as a remote client: requests fail with the error of the context OpenFile was given once
+	// that context is done
+	if kind == "inread" || (kind == "random" && c.chance(0.3)) {
+		w.store.honourCtx = true
+		faultDesc = append(faultDesc, "honourctx")
+	}
+	// inread: one read is a request in flight: it returns (with the context's error) only when the query's
+	// context is done; the query is cancelled / closed while it is in flight
+	readParked := make(chan *qHandle, 1)
+	holdRead := make(chan struct{}) // cancelclose: the request in flight does not return before the harness says so
+	if kind == "inread" {
+		ignoreCtx := sc.runs[0].plan.after == "cancelclose"
+		parkAt := int64([]int{0, 0, 1, 1, 2, 3, 5}[c.intn(7)])
+		faultDesc = append(faultDesc, fmt.Sprintf("park-read#%d", parkAt))
+		var hookCtr atomic.Int64
+		w.store.readHook = func(h *qHandle, off int64, n int) error {
+			if hookCtr.Add(1)-1 == parkAt {
+				select {
+				case readParked <- h:
+				default:
+				}
+				if ignoreCtx {
+					select {
+					case <-holdRead:
+					case <-time.After(10 * time.Second):
+					}
+				} else {
+					select {
+					case <-h.ctx.Done():
+					case <-time.After(10 * time.Second):
+					}
+				}
+			}
+			return nil
+		}
+	}
+	// bigfilter: an I/O failure on a read that starts at the filter section of one of the file's blocks: with a
+	// region larger than the chunk cap that is a chunk read other than the first one
+	if kind == "bigfilter" {
+		sq := sc.runs[0].plan.sq
+		f := &w.files[0]
+		for i := range w.files {
+			if len(w.files[i].blocks) > len(f.blocks) {
+				f = &w.files[i]
+			}
+		}
+		blocks := w.queryBlocks(f, sq)
+		starts := qChunkStarts(blocks)
+		c.dist("sys_bigfilter_chunks", fmt.Sprint(len(starts)))
+		if len(blocks) > 0 && c.chance(0.9) {
+			k := c.intn(len(blocks))
+			if len(starts) > 1 && c.chance(0.85) {
+				k = starts[1+c.intn(len(starts)-1)]
+			}
+			target := int64(blocks[k].meta.BloomFilterOffset)
+			faultDesc = append(faultDesc, fmt.Sprintf("read@section-of-block-%d/%d", k, len(blocks)))
+			w.store.readHook = func(h *qHandle, off int64, n int) error {
+				if h.pointer == f.pointer && off == target {
+					injected.Add(1)
+					return faultErr
+				}
+				return nil
+			}
+		}
+	}
+	sc.faults = strings.Join(faultDesc, ",")
 
 	// MetaStore pause (cancel during iteration)
 	var iterQ *sysQRun
@@ -308,10 +480,28 @@ func runSysScenario(c *Ctx, fixed bool, kind string) (term string, desc map[stri
 		}
 	}()
 
+	// handoff: the engine's whole query budget is taken (the harness stands in for other queries' workers),
+	// so this query's workers park inside querySlot.acquire
+	heldSlots := 0
+	if kind == "handoff" {
+		sem := w.eng.VerifQuerySemaphore()
+		for heldSlots < cap(sem) {
+			sem <- struct{}{}
+			heldSlots++
+		}
+	}
+	releaseHeld := func() {
+		sem := w.eng.VerifQuerySemaphore()
+		for ; heldSlots > 0; heldSlots-- {
+			<-sem
+		}
+	}
+	defer releaseHeld()
+
 	// ---- launch
 	for _, q := range sc.runs {
 		q := q
-		q.ctx, q.cancel = context.WithCancel(context.Background())
+		q.ctx, q.cancel, q.propagate = newQCallerCtx(q.plan.ctxKind)
 		if q.plan.mode == "cancelBefore" {
 			sc.doCancel(q, false)
 		}
@@ -333,6 +523,9 @@ func runSysScenario(c *Ctx, fixed bool, kind string) (term string, desc map[stri
 				if err := q.r.Close(); err != nil {
 					c.violation("q-close-nonnil", "Close returned a non-nil error: "+err.Error(), map[string]any{"plan": sc.plan})
 				}
+				if !q.r.VerifWorkersDone() {
+					q.closeEarly.Store(true)
+				}
 			})
 		}
 		q.consumer.start(func() {
@@ -343,7 +536,23 @@ func runSysScenario(c *Ctx, fixed bool, kind string) (term string, desc map[stri
 			if q.plan.mode == "stall" && q.plan.stallAt == 0 {
 				<-q.resume
 			}
-			for q.r.Next() {
+			if q.plan.mode == "cancelLate" {
+				// give the pipeline the chance to finish by itself behind a consumer that has not come yet
+				waitUntil(q.r.VerifWorkersDone, 20*time.Millisecond)
+			}
+			for {
+				if q.plan.mode == "cancelLate" && !q.cancelled.Load() && q.r.VerifWorkersDone() {
+					// the pipeline is over, rows may still be buffered: the caller cancels now. The calls that
+					// follow hand out what is buffered; the one that finds the channel closed must report the cancel.
+					q.lateCancel = true
+					sc.doCancel(q, false)
+				}
+				cancelledBefore := q.cancelDone.Load()
+				if !q.r.Next() {
+					q.cancelBeforeFinal = cancelledBefore
+					q.closeAtFalse = q.closeAsked.Load()
+					break
+				}
 				q.returned = append(q.returned, qRowID(q.r.Row()))
 				n++
 				switch q.plan.mode {
@@ -369,6 +578,86 @@ func runSysScenario(c *Ctx, fixed bool, kind string) (term string, desc map[stri
 		sc.doCancel(iterQ, false)
 	}
 
+	// logQuiet waits until the hook log has not grown for the given time (true) or the timeout passes
+	logQuiet := func(quiet, timeout time.Duration) bool {
+		deadline := time.Now().Add(timeout)
+		last, since := sc.log.len(), time.Now()
+		for time.Now().Before(deadline) {
+			time.Sleep(200 * time.Microsecond)
+			if n := sc.log.len(); n != last {
+				last, since = n, time.Now()
+			} else if time.Since(since) >= quiet {
+				return true
+			}
+		}
+		return false
+	}
+	lastEventOf := func(qid int64, prefix string) string {
+		evs := sc.log.snapshot()
+		for i := len(evs) - 1; i >= 0; i-- {
+			if evs[i].A == qid && strings.HasPrefix(evs[i].Kind, prefix) && !qForeignEvent(evs[i].Kind) {
+				return evs[i].Kind
+			}
+		}
+		return ""
+	}
+	if kind == "inread" {
+		q := sc.runs[0]
+		deadline := time.Now().Add(10 * time.Second)
+	waitPark:
+		for q.r != nil && time.Now().Before(deadline) {
+			select {
+			case <-readParked:
+				c.dist("sys_inread", "parked->"+q.plan.after)
+				switch q.plan.after {
+				case "cancel":
+					sc.doCancel(q, false)
+				case "close":
+					sc.askClose(q)
+				case "cancelclose":
+					// the caller cancels and then closes without driving Next to false, while a worker is inside a
+					// store request that takes its time: Close returns only once that worker is out
+					sc.doCancel(q, false)
+					sc.askClose(q)
+					time.Sleep(3 * time.Millisecond)
+					close(holdRead)
+				}
+				break waitPark
+			default:
+				if q.consumer.settle(200 * time.Microsecond) {
+					c.dist("sys_inread", "never-parked")
+					break waitPark
+				}
+			}
+		}
+	}
+	if kind == "handoff" && sc.runs[0].r != nil {
+		q := sc.runs[0]
+		// wait until the query's workers have parked on the full semaphore
+		waitUntil(func() bool { return lastEventOf(q.qid, "bw.take") != "" || lastEventOf(q.qid, "fw.take") != "" }, 2*time.Second)
+		parked := logQuiet(3*time.Millisecond, 2*time.Second)
+		c.dist("sys_handoff", fmt.Sprintf("quiet=%v->%s", parked, q.plan.after))
+		// The slots are handed to the parked workers and the query ends right behind that, before the workers
+		// run again: with one P a goroutine made runnable by the channel hand-off cannot run before this one yields.
+		prev := runtime.GOMAXPROCS(1)
+		if q.plan.after == "cancel" {
+			q.cancelled.Store(true)
+			bs.VerifEmit("caller.cancel.begin", int64(q.idx), 0, "")
+			releaseHeld()
+			q.cancel()
+			bs.VerifEmit("caller.cancel.end", int64(q.idx), 0, "")
+			q.cancelDone.Store(true)
+		} else {
+			q.closeAsked.Store(true)
+			releaseHeld()
+			if err := q.r.Close(); err != nil {
+				c.violation("q-close-nonnil", "Close returned a non-nil error: "+err.Error(), map[string]any{"plan": sc.plan})
+			}
+			close(q.closeSig)
+		}
+		runtime.GOMAXPROCS(prev)
+	}
+
 	hang := false
 	waitConsumer := func(q *sysQRun) {
 		if q.r == nil {
@@ -391,6 +680,11 @@ func runSysScenario(c *Ctx, fixed bool, kind string) (term string, desc map[stri
 	}
 	for _, q := range sc.runs {
 		if q.plan.mode == "stall" && q.r != nil {
+			if kind == "saturate" {
+				// the pipeline must be backed up to the file stage: its last event is the attempt to send a file job
+				sat := waitUntil(func() bool { return lastEventOf(q.qid, "fs.") == "fs.job.try" && logQuiet(2*time.Millisecond, 50*time.Millisecond) }, 3*time.Second)
+				c.dist("sys_saturated", fmt.Sprintf("%v->%s", sat, q.plan.after))
+			}
 			switch q.plan.after {
 			case "cancel":
 				sc.doCancel(q, false)
@@ -405,9 +699,11 @@ func runSysScenario(c *Ctx, fixed bool, kind string) (term string, desc map[stri
 	<-pauseDone
 	sc.pz.releaseAll()
 	if hang {
+		qHangSeen = true
 		for _, q := range sc.runs {
 			if q.cancel != nil {
 				q.cancel()
+				q.propagate()
 			}
 			sc.askClose(q)
 		}
@@ -420,16 +716,21 @@ func runSysScenario(c *Ctx, fixed bool, kind string) (term string, desc map[stri
 		stats     bs.QueryStats
 	}
 	finals := make([]finalObs, len(sc.runs))
+	askedEarly := make([]bool, len(sc.runs)) // somebody was asked to Close before the consumer was through
 	for i, q := range sc.runs {
 		if q.r == nil {
 			continue
 		}
+		askedEarly[i] = q.closeAsked.Load()
 		finals[i].err = classifyEngineErr(q.r.Err())
 		finals[i].stats = q.r.Stats()
 		sc.askClose(q)
 		for _, a := range q.closers {
 			if !a.settle(sysTimeout) {
 				c.violation("q-close-hang", fmt.Sprintf("query %d: Close did not return", q.idx), map[string]any{"plan": sc.plan})
+				qHangSeen = true
+				q.cancel()
+				q.propagate()
 				return "", nil, "", false
 			}
 		}
@@ -441,6 +742,7 @@ func runSysScenario(c *Ctx, fixed bool, kind string) (term string, desc map[stri
 			c.violation("q-stats-moved", fmt.Sprintf("query %d: Stats changed after Next returned false", q.idx), map[string]any{"plan": sc.plan})
 		}
 		q.cancel()
+		q.propagate()
 	}
 	for _, q := range sc.runs {
 		q.consumer.stop()
@@ -479,10 +781,27 @@ func runSysScenario(c *Ctx, fixed bool, kind string) (term string, desc map[stri
 			continue
 		}
 		f := finals[i]
+		if q.closeEarly.Load() {
+			c.violation("q-close-early", fmt.Sprintf("query %d: a Close call returned while the query's pipeline had not wound down (workers may still hold handles and slots)", q.idx), info)
+		}
 		if !q.stickyOK {
 			c.violation("q-sticky", fmt.Sprintf("query %d: Next returned true (or Row non-nil) after it had returned false", q.idx), info)
 		}
-		asked := q.plan.mode == "closeAt" || q.plan.mode == "closePause" || q.plan.mode == "closeBefore" || (q.plan.mode == "stall" && q.plan.after == "close")
+		asked := askedEarly[i]
+		// C20: the caller's cancel had returned before the Next call that returned false began and nobody had been
+		// asked to Close when it returned: only Next can have decided, and it must have reported the cancellation
+		if fixed && q.cancelBeforeFinal && !q.closeAtFalse && f.err.kind != "cancel" {
+			c.violation("q-err-cancel-missed", fmt.Sprintf("query %d: the caller's context (%s) was cancelled before the Next call that returned false began (pipeline already finished: %v), nobody called Close, yet Err = %s %s",
+				q.idx, q.plan.ctxKind, q.lateCancel, f.err.kind, f.err.text), info)
+		}
+		// C20: nobody ended the query from outside, so its context was live whenever a store call failed: every
+		// injected failure is a recorded failure and Err reports them all
+		if nq == 1 && !q.cancelled.Load() && !asked && sc.iterAt < 0 && injected.Load() > 0 && (f.err.kind != "join" || int64(len(f.err.ids)) != injected.Load()) {
+			c.violation("q-err-dropped", fmt.Sprintf("query %d: %d store calls failed (%s) while the query's context was live, Err = %s %s", q.idx, injected.Load(), sc.faults, f.err.kind, f.err.text), info)
+		}
+		if q.lateCancel {
+			c.dist("sys_latecancel", fmt.Sprintf("%s/err=%s", q.plan.ctxKind, f.err.kind))
+		}
 		if !q.cancelled.Load() && !asked && injected.Load() == 0 && sc.iterAt < 0 && f.err.kind != "nil" {
 			c.violation("q-err-spurious", fmt.Sprintf("query %d: Err = %s although nothing failed and nobody cancelled", q.idx, f.err.text), info)
 		}
@@ -588,6 +907,54 @@ func runSysScenario(c *Ctx, fixed bool, kind string) (term string, desc map[stri
 		}
 	}
 
+	// C21: afterwards the engine's whole query budget is available again: a further query over the same engine
+	// runs to completion (at MaxQueryConcurrency = 1 a single lost slot would park it for ever)
+	if kind == "handoff" || kind == "saturate" || kind == "inread" {
+		bs.VerifSetSink(nil) // the log of the scenario is complete
+		bs.VerifSetPause(nil)
+		w.store.emit = false
+		w.store.fault, w.store.onCall, w.store.readHook, w.store.honourCtx = nil, nil, nil, false
+		w.meta.mu.Lock()
+		w.meta.failAt, w.meta.pauseAt = -1, -1
+		w.meta.mu.Unlock()
+		total := 0
+		for _, f := range w.files {
+			for _, b := range f.blocks {
+				total += len(b.rows)
+			}
+		}
+		ctx2, cancel2 := context.WithCancel(context.Background())
+		r2, err := w.eng.Query(ctx2, bs.NewQuery().Build())
+		if err != nil {
+			c.violation("q-query-setup", "follow-up Query returned an error: "+err.Error(), info)
+		} else {
+			got := make(chan int, 1)
+			go func() {
+				n := 0
+				for r2.Next() {
+					n++
+				}
+				got <- n
+			}()
+			select {
+			case n := <-got:
+				if n != total || r2.Err() != nil {
+					c.violation("q-followup-rows", fmt.Sprintf("a query started after every other query had ended returned %d of %d rows, Err = %v", n, total, r2.Err()), info)
+				}
+			case <-time.After(10 * time.Second):
+				c.violation("q-followup-hang", fmt.Sprintf("a query started after every other query had ended made no progress in 10 s (query semaphore length %d of %d): the engine's query budget was not returned",
+					w.eng.VerifQuerySemaphoreLen(), maxQC), info)
+				cancel2()
+				select {
+				case <-got:
+				case <-time.After(5 * time.Second):
+				}
+			}
+			r2.Close()
+		}
+		cancel2()
+	}
+
 	// ---- translate
 	tr := newSysTranslator(sc)
 	labels, bad := tr.translate()
@@ -632,6 +999,38 @@ func runSysScenario(c *Ctx, fixed bool, kind string) (term string, desc map[stri
 	return term, desc, sc.plan + "#" + sc.faults + "#" + w.describe(), len(labels) >= 30
 }
 
+// qChunkStarts: the indexes (into blocks, ascending row data offset) at which the block filter pass of a file
+// has to read: the first block, then every block whose section the chunk in hand does not cover. A chunk
+// starts at a block's section and extends over the following sections while they stay within the cap.
+func qChunkStarts(blocks []sysBlock) []int {
+	var starts []int
+	var cs, ce int64 = -1, -1
+	for i, b := range blocks {
+		if b.meta.BloomFilterSize == 0 {
+			continue
+		}
+		off, end := int64(b.meta.BloomFilterOffset), int64(b.meta.BloomFilterOffset+b.meta.BloomFilterSize)
+		if cs >= 0 && off >= cs && end <= ce {
+			continue
+		}
+		starts = append(starts, i)
+		cs, ce = off, end
+		for _, nb := range blocks[i+1:] {
+			if nb.meta.BloomFilterSize == 0 {
+				continue
+			}
+			ns, ne := int64(nb.meta.BloomFilterOffset), int64(nb.meta.BloomFilterOffset+nb.meta.BloomFilterSize)
+			if ns < cs || ne-cs > bs.VerifBlockFilterChunkTarget {
+				break
+			}
+			if ne > ce {
+				ce = ne
+			}
+		}
+	}
+	return starts
+}
+
 func waitUntil(cond func() bool, timeout time.Duration) bool {
 	deadline := time.Now().Add(timeout)
 	for !cond() {
@@ -649,12 +1048,13 @@ func classifyEngineErr(err error) terr {
 	if err == nil {
 		return terr{kind: "nil"}
 	}
-	if errors.Is(err, context.Canceled) || errors.Is(err, context.DeadlineExceeded) {
-		if strings.HasPrefix(err.Error(), "query canceled") {
+	if strings.HasPrefix(err.Error(), "query canceled: ") {
+		if errors.Is(err, context.Canceled) || errors.Is(err, context.DeadlineExceeded) {
 			return terr{kind: "cancel", text: err.Error()}
 		}
 		return terr{kind: "other", text: err.Error()}
 	}
+	// (a recorded store failure may itself wrap a context error: that is a failure, not a cancellation)
 	j, ok := err.(interface{ Unwrap() []error })
 	if !ok {
 		return terr{kind: "other", text: err.Error()}
